@@ -36,6 +36,12 @@ func main() {
 			res := ex.run(sc.Text())
 			out.WriteString(res)
 			out.WriteByte('\n')
+			if f0 := strings.Fields(res + " x")[0]; strings.HasSuffix(f0, "-hang") || strings.HasSuffix(f0, "-stuck") {
+				// a call into the library did not return within its deadline: goroutines of the library are stuck;
+				// end the worker here (the orchestrator reports this line as the failing input)
+				out.Flush()
+				os.Exit(3)
+			}
 		}
 	case "gen":
 		fs := flag.NewFlagSet("gen", flag.ExitOnError)
